@@ -1,8 +1,9 @@
 import WebAuthnModel.Basic.Bytes
 import WebAuthnModel.Model.Tpm
+import WebAuthnModel.Model.Json
 /-
   Programs over dependency oracles.  The repository's own logic is written in Lean; every call
-  into a dependency (crypto, x509, json, go-tpm, go-jose) is an `ask`; `net/url` host extraction is modelled in Lean (`Model/Url`); the ASN.1 values the
+  into a dependency (crypto, x509, go-tpm, go-jose) is an `ask`; `encoding/json` decoding of client data is modelled in Lean (`Model/Json`); `net/url` host extraction is modelled in Lean (`Model/Url`); the ASN.1 values the
   repository decodes itself with `encoding/asn1` (Keymaster key description, Apple nonce, AAGUID extension)
   are decoded in Lean (`Model/Asn1`, `Model/KeyDesc`).  Theorems
   quantify over every `Env`; the driver interprets the same program in IO, the Go harness
@@ -18,11 +19,8 @@ inductive KeyMat where
   | other
   deriving Repr, DecidableEq, Inhabited
 
-structure ClientData where
-  type : Bytes
-  challenge : Bytes
-  origin : Bytes
-  deriving Repr, DecidableEq, Inhabited
+/-- the three members of CollectedClientData the ceremonies read, as `encoding/json` decodes them (`Model/Json.lean`) -/
+abbrev ClientData := Json.ClientDataFields
 
 structure CertExt where
   oid : List Nat
@@ -70,7 +68,6 @@ inductive SigScheme where
 inductive Ask where
   | sha256 (data : Bytes)
   | hash (id : Nat) (data : Bytes)                       -- crypto.Hash(id); unavailable ⇒ none
-  | clientData (raw : Bytes)                             -- json.Unmarshal into CollectedClientData
   | sigVerify (s : SigScheme) (hashId : Nat) (k : KeyMat) (msg sig : Bytes)
   | x509Parse (der : Bytes)
   | x509CheckSig (der : Bytes) (alg : Nat) (msg sig : Bytes)
@@ -97,7 +94,6 @@ inductive Resp where
   | bytes (b : Bytes)
   | bool (b : Bool)
   | nat (n : Nat)
-  | clientData (c : ClientData)
   | cert (c : CertView)
   | certInfo (c : CertInfoView)
   | pubArea (p : PubAreaView)
